@@ -27,6 +27,7 @@ Record tcase := {
   c_has2 : bool;              (* MHttp: a second POST was made (after a restart of the hub) before the GET *)
   c_post2 : list token;
   c_post2_eof : bool;
+  c_post2_txn : bool;         (* MHttp: the second POST goes to /transactions (dataset "ds") instead of /datasets/ds/entities *)
   c_pages : list page;        (* MSource: the pages one source object read, in order *)
   (* observed on the implementation *)
   o_outcome : N;              (* 0 ok | 1 err | 2 panic | other *)
@@ -183,19 +184,40 @@ Fixpoint raw_keys (x : pval) : bool :=
   end.
 Definition unreadable (es : list ent) : bool := existsb (fun e => raw_keys (val_of_ent e)) es.
 
+(** the latest version per id (GET /entities) *)
+Fixpoint latest (es : list ent) : list ent :=
+  match es with
+  | [] => []
+  | e :: r => if existsb (fun e' => name_eqb (e_id e) (e_id e')) r then latest r else e :: latest r
+  end.
+
+(** the second POST: through storeEntitiesHandler like the first, or through processTransaction
+    (txnhandler.go: ParseTransaction error = 400, ExecuteTransaction error = 500, all entities of the
+    dataset in one go) *)
+Definition second_post (c : tcase) (stream_r txn_r : N * list (string * list ent) * nsmap) : N * list ent :=
+  if c_has2 c then
+    if c_post2_txn c then
+      let '(oc, gs, _) := txn_r in
+      let es := match afind String.eqb "ds" gs with Some es => es | None => [] end in
+      if N.eqb oc 0 then (if has_noid es then (3%N, []) else (0%N, es)) else (oc, [])
+    else
+      let '(oc, gs, _) := stream_r in
+      let es := all_emitted gs in flush (S (List.length es)) es oc
+  else (0%N, []).
+
 Definition http_matches (lenient : bool) (c : tcase)
-  (post : N * list (string * list ent) * nsmap) (post2 : N * list (string * list ent) * nsmap) : bool :=
+  (post : N * list (string * list ent) * nsmap) (post2 : N * list ent) : bool :=
   let '(oc, gs, _) := post in
   let es := all_emitted gs in
   let '(st, stored1) := flush (S (List.length es)) es oc in
-  let '(oc2, gs2, _) := post2 in
-  let es2 := all_emitted gs2 in
-  let '(st2, stored2) := if c_has2 c then flush (S (List.length es2)) es2 oc2 else (0%N, []) in
+  let '(st2, stored2) := post2 in
   let stored := (stored1 ++ stored2)%list in
   N.eqb st (o_status c) && N.eqb st2 (o_status2 c)
   && (if N.eqb st 0 && N.eqb st2 0 && negb (lenient && unreadable stored) then N.eqb (o_outcome c) 0 else true)
-  && (if N.eqb (o_outcome c) 0 && comparable stored
-      then same_ents (c_ordered c) stored (payload (o_groups c)) else true).
+  && (if N.eqb (o_outcome c) 0 then
+        if c_ordered c then (if comparable stored then same_ents true stored (payload (o_groups c)) else true)
+        else (if forallb has_qid stored then same_ents false (latest stored) (payload (o_groups c)) else true)
+      else true).
 
 (** MProxy: the page reader of a proxy dataset over the remote hub's answer *)
 Definition res_code {A} (r : res A) : N := match r with Ok _ => 0 | Err => 1 | Panic => 2 | Fuel => 7 end%N.
@@ -232,7 +254,7 @@ Definition agree (v : variant) (pc : bool) (c : tcase) : bool :=
   | MTxn => obs_matches c false (run_txn v (c_toks c))
   | MHttp => obs_matches c false (run_stream v (c_toks c) (c_eof c))
              && http_matches (negb (strict v)) c (run_stream v (c_post c) (c_post_eof c))
-                                                   (run_stream v (c_post2 c) (c_post2_eof c))
+                  (second_post c (run_stream v (c_post2 c) (c_post2_eof c)) (run_txn v (c_post2 c)))
   | MProxy => proxy_matches c (proxy_page v pc (fuel_for (c_toks c)) (c_eof c) (c_toks c))
   | MSource => pages_match (read_pages false v [] (map (fun p => (p_toks p, p_eof p)) (c_pages c))) (c_pages c)
   end.
@@ -247,7 +269,8 @@ Definition spec_ok (c : tcase) : bool :=
   | MStream => obs_matches c true (run_spec (c_toks c) (c_eof c))
   | MTxn => obs_matches c false (run_txn fixed (c_toks c))
   | MHttp => obs_matches c false (run_spec (c_toks c) (c_eof c))
-             && http_matches false c (run_spec (c_post c) (c_post_eof c)) (run_spec (c_post2 c) (c_post2_eof c))
+             && http_matches false c (run_spec (c_post c) (c_post_eof c))
+                  (second_post c (run_spec (c_post2 c) (c_post2_eof c)) (run_txn fixed (c_post2 c)))
   | MProxy => proxy_matches c (proxy_page fixed true (fuel_for (c_toks c)) (c_eof c) (c_toks c))
   | MSource => pages_match (read_pages false fixed [] (map (fun p => (p_toks p, p_eof p)) (c_pages c))) (c_pages c)
   end.
